@@ -239,6 +239,16 @@ def run_case(case, scenarios, full=False):
         except Exception:  # pylint: disable=broad-except
             pass
         one_run("after_rejected_other", m)
+        # the SAME machine object checks and runs another pipeline (with a validation step: right products,
+        # second checking round), then one without, then runs this case's pipeline again
+        for k, ocfg in enumerate(OTHER_PIPELINES[:2]):
+            oL, oR = other_inputs(k)
+            try:
+                check_pipeline_section(copy.deepcopy(ocfg), meta(oL), meta(oR), m)
+                pandora.run(m, oL, oR, copy.deepcopy(ocfg))
+            except Exception as exc:  # pylint: disable=broad-except
+                res["errors"].append(f"other pipeline {k} on the same machine: " + type(exc).__name__ + ": " + str(exc)[:160])
+            one_run(f"same_machine_after_other_{k}", m)
         one_run("fresh_again", PandoraMachine())
     return res
 
